@@ -77,6 +77,51 @@ def desugar(loc, relfile, fn_paths, rules, _pass=0, optional=()):
                     rewrites.append((a, b, new))
                     records.append({"fn": fp, "rule": "D52 X.iter().copied().collect()  =>  pv_collect_copied(&X)   (stub: a collection with the elements of X in order; the target type is the declared one)",
                                     "original": src[a:b], "rewritten": new})
+            if "D61" in rules:
+                # S.get_domains().map(|v| E).collect::<Vec<_>>()  =>  push loop over the vector of the solution's domains
+                seg = src[it["start"]:it["end"]]
+                for m in re.finditer(r"([a-z_][a-z_0-9]*)\s*\.get_domains\(\)\s*\.map\(\|([a-z_][a-z_0-9]*)\| ([^\n]+)\)\s*\.collect::<Vec<_>>\(\)", seg):
+                    a, b = it["start"] + m.start(), it["start"] + m.end()
+                    S, v, E = m.group(1), m.group(2), m.group(3)
+                    new = (f"{{ let pv_d = {S}.pv_domains(); let mut pv_c = Vec::new(); let mut pv_k: usize = 0; while pv_k < pv_d.len() {{ let {v} = pv_d[pv_k]; pv_k += 1; pv_c.push({E}); }} pv_c }}")
+                    rewrites.append((a, b, new))
+                    records.append({"fn": fp, "rule": "D61 S.get_domains().map(|v| E).collect::<Vec<_>>()  =>  { let d = S.pv_domains(); push loop over d }   (pv_domains: the vector of the domain ids the iterator yields, in order)",
+                                    "original": src[a:b], "rewritten": new})
+            if "D62" in rules:
+                # S.get_domains().flat_map(|v| { STMTS; [E1, .., En] }).collect::<Vec<_>>()  =>  push loop: STMTS, then one push per item
+                seg = src[it["start"]:it["end"]]
+                m = re.search(r"([a-z_][a-z_0-9]*)\s*\.get_domains\(\)\s*\.flat_map\(\|([a-z_][a-z_0-9]*)\|\s*\{", seg)
+                if m:
+                    # the closure block
+                    depth, k = 1, m.end()
+                    while k < len(seg) and depth > 0:
+                        depth += {"{": 1, "}": -1}.get(seg[k], 0)
+                        k += 1
+                    block = seg[m.end():k - 1]
+                    tail = re.match(r"\s*\)\s*\.collect::<Vec<_>>\(\)", seg[k:])
+                    lb = block.rfind("[")
+                    if tail and lb >= 0 and block.rstrip().endswith("]"):
+                        stmts = re.sub(r"//[^\n]*", "", block[:lb])
+                        inner = block[lb + 1:block.rstrip().rfind("]")]
+                        items, depth2, cur = [], 0, ""
+                        for ch in inner:
+                            if ch in "([{":
+                                depth2 += 1
+                            elif ch in ")]}":
+                                depth2 -= 1
+                            if ch == "," and depth2 == 0:
+                                items.append(cur.strip()); cur = ""
+                            else:
+                                cur += ch
+                        if cur.strip():
+                            items.append(cur.strip())
+                        S, v = m.group(1), m.group(2)
+                        pushes = " ".join(f"pv_c.push({e});" for e in items)
+                        new = (f"{{ let pv_d = {S}.pv_domains(); let mut pv_c = Vec::new(); let mut pv_k: usize = 0; while pv_k < pv_d.len() {{ let {v} = pv_d[pv_k]; pv_k += 1; {stmts.strip()} {pushes} }} pv_c }}")
+                        a, b = it["start"] + m.start(), it["start"] + k + tail.end()
+                        rewrites.append((a, b, new))
+                        records.append({"fn": fp, "rule": "D62 S.get_domains().flat_map(|v| { STMTS; [E1, .., En] }).collect::<Vec<_>>()  =>  push loop over S.pv_domains(): STMTS, then one push per item",
+                                        "original": src[a:b], "rewritten": new})
             if "D60" in rules:
                 # BUF.extend(OPT.iter().map(|x| E));  [OPT an Option]  =>  if let Some(x) = &OPT { BUF.pv_push(E); }
                 seg = src[it["start"]:it["end"]]
